@@ -64,7 +64,7 @@ func classifyRun(err error) string {
 		}
 		return "panic:other:" + clipWords(reDigits.ReplaceAllString(r, "N"), 60)
 	}
-	return "err:" + clipWords(reDigits.ReplaceAllString(s, "N"), 80)
+	return "err:" + clipWords(reDigits.ReplaceAllString(s, "N"), 240)
 }
 
 func runEngine(yamlConf string, timeout time.Duration, debug bool) shot.Result {
